@@ -99,15 +99,17 @@ Theorem c15_basis_invariants : forall (p : bphase) (ops : list (list Q)) (c : li
   length c = nmaps_of p ->
   let p' := run_assignments p (ops ++ [c]) in
   get_coeffs p' = Some c /\
-  get_kappa p' = Some (kappaQ c) /\
-  get_probs p' = Some (map (fun x => (Qabs x / kappaQ c)%Q) c) /\
-  get_overhead p' = Some (kappaQ c * kappaQ c)%Q /\
-  (~ (kappaQ c == 0)%Q -> (sumQ (map (fun x => (Qabs x / kappaQ c)%Q) c) == 1)%Q) /\
-  Forall (fun x => (0 <= x)%Q) (map (fun x => (Qabs x / kappaQ c)%Q) c).
+  get_kappa p' = Some (kappaQ c) /\ (kappaQ c == sumQ (map Qabs c))%Q /\
+  get_probs p' = Some (probsQ c) /\
+  Forall2 Qeq (probsQ c) (map (fun x => (Qabs x / kappaQ c)%Q) c) /\
+  get_overhead p' = Some (overheadQ c) /\ (overheadQ c == kappaQ c * kappaQ c)%Q /\
+  (~ (kappaQ c == 0)%Q -> (sumQ (probsQ c) == 1)%Q) /\
+  Forall (fun x => (0 <= x)%Q) (probsQ c).
 Proof.
   intros p ops c H. cbv zeta.
   destruct (run_last p ops c H) as (A & B & C & D).
-  repeat split; try assumption; [exact (probsQ_sum c)|exact (probsQ_nonneg c)].
+  repeat split; try assumption;
+    [apply kappaQ_sum|apply probsQ_spec|apply qmul_eq|exact (probsQ_sum c)|exact (probsQ_nonneg c)].
 Qed.
 
 (* a refused assignment (wrong length, ValueError) leaves the basis as it was *)
